@@ -30,6 +30,11 @@ func c12Steady(c *core.Collector, x *Ctx) {
 	}
 	var wg sync.WaitGroup
 	var anySlow atomic.Bool
+	wg.Add(1)
+	go func() {
+		defer wg.Done()
+		c12MixedTimeouts(c, srv)
+	}()
 	for ti := 0; ti < 2; ti++ {
 		wg.Add(1)
 		go func(ti int) {
@@ -198,5 +203,73 @@ func c12Steady(c *core.Collector, x *Ctx) {
 	wg.Wait()
 	if !anySlow.Load() {
 		c.Floor("steady_commands_matched", 6)
+	}
+}
+
+// c12MixedTimeouts: two commands outstanding on ONE terminal with different durations, the later one with the shorter one. Each
+// call's timeout is its own: the later, short command (never answered) returns a timeout after its own duration although the
+// earlier command — without a timeout, or with 30 s — is still waiting. The terminal answers the earlier command only after
+// the short one's verdict. Time is used in the sound direction only: "had not returned its duration + slack after it was sent".
+// (seed C12w1: one timer per connection, armed only when the first command becomes outstanding.)
+func c12MixedTimeouts(c *core.Collector, srv *svc.Server) {
+	for variant, longD := range []time.Duration{-1, 30 * time.Second} {
+		c.Eval()
+		phone := fmt.Sprintf("1956%03d%02d", c.Seed%1000, variant)
+		t, err := svc.Dial(srv.Addr, variant == 1, phone)
+		if err != nil {
+			c.Inconclusive()
+			return
+		}
+		t.Write(t.Frame(0x0002, 1, nil))
+		if rx, ok, to := t.Next(20 * time.Second); to || !ok || rx.F == nil {
+			c.Inconclusive()
+			t.Close()
+			return
+		}
+		cmds := make(chan uint16, 8) // platform serials of command frames, in the order they reached the terminal
+		go func() {
+			for {
+				rx, ok, to := t.Next(60 * time.Second)
+				if to || !ok {
+					close(cmds)
+					return
+				}
+				if rx.F != nil && rx.F.ID == 0x8104 {
+					cmds <- rx.F.Serial
+				}
+			}
+		}()
+		aCh := make(chan cmdResult, 1)
+		go func() {
+			aCh <- sendCmd(srv.G, phone, consts.P8104QueryTerminalParams, nil, longD, 60*time.Second)
+		}()
+		aSerial, okA := <-cmds // A is on the wire
+		if !okA {
+			c.Inconclusive()
+			t.Close()
+			return
+		}
+		shortD := 200 * time.Millisecond
+		b := sendCmd(srv.G, phone, consts.P8104QueryTerminalParams, nil, shortD, shortD+slackFor(shortD))
+		switch {
+		case b.kind == "stranded":
+			c.Violate("timeout|a command's timeout did not fire after its own duration while an earlier command with a longer duration was outstanding",
+				fmt.Sprintf("terminal %s: command A (duration %v) outstanding; command B (duration %v, never answered) had no result %v after it was sent", phone, longD, shortD, b.dur.Round(time.Millisecond)), map[string]any{"kind": "c12mixed", "variant": variant})
+		case b.kind != "timeout":
+			c.Violate("match|an unanswered command returned something other than a timeout", fmt.Sprintf("terminal %s: %s", phone, b.kind), map[string]any{"kind": "c12mixed", "variant": variant})
+		default:
+			c.Count("short_timeouts_that_fired_while_a_longer_command_was_outstanding", 1)
+		}
+		// now the terminal answers A: its caller gets that response
+		t.Write(t.Frame(0x0104, 2, []byte{byte(aSerial >> 8), byte(aSerial), 0}))
+		select {
+		case a := <-aCh:
+			if a.kind != "response" {
+				c.Violate("match|the earlier command did not get its response after a later command had timed out", fmt.Sprintf("terminal %s: A (duration %v) -> %s", phone, longD, a.kind), map[string]any{"kind": "c12mixed", "variant": variant})
+			}
+		case <-time.After(20 * time.Second):
+			c.Inconclusive()
+		}
+		t.Close()
 	}
 }
